@@ -10,11 +10,13 @@ PoolQuick == { N(1), N(2), EmptyT, Mk1("a", N(1)),
                Chr(0, 98), Itm(0, N(2)),
                Ent(N(1), N(3)),                         \* a second value for the key 1: multi-valued dictionaries
                T([at |-> H(0), ch |-> N(97)]) }          \* (@: 0.5, @char: 97): shaped like a char tuple, not one
+\* 31 elements (the size the thorough tier was fitted to): the quick pool minus nothing, plus the
+\* extras; Ent(N(1), N(3)) and the half-index char tuple are in PoolQuick already, N(0) made room
 PoolThorough == PoolQuick \cup
              { Mk2("a", N(1), "b", N(2)), Mk1("b", N(1)), Mk1("a", N(2)),
                Chr(2, 100), Itm(2, S({})), Itm(3, N(1)), Byt(1, 2), Byt(2, 1),
-               Ent(N(1), N(3)), Ent(S({N(1)}), N(1)), Ent(N(2), N(2)),
-               S({}), TrueV, S({Chr(0, 97)}), S({Itm(0, N(1))}), H(1), N(0) }
+               Ent(S({N(1)}), N(1)), Ent(N(2), N(2)),
+               S({}), TrueV, S({Chr(0, 97)}), S({Itm(0, N(1))}), H(1) }
 PoolChain == { N(1), N(2), Mk1("a", N(1)), Chr(0, 97), Chr(1, 98), Chr(2, 99), Chr(4, 100),
                Itm(0, N(1)), Itm(1, N(2)), Itm(2, N(1)), Ent(N(1), N(2)), Ent(N(2), N(2)),
                Byt(0, 1), Byt(1, 2), S({N(1)}) }
